@@ -127,6 +127,22 @@ func (w *World) tamperCatalogue(req map[string]any, kind ref.OpKind, alg uint, s
 			// (d) key substitution with re-signing by the attacker, original reveal value
 			hdr := map[string]any{"alg": attacker.Type.Alg()}
 			add("key-substituted+resigned", withJWS(rawJWS(hdr, ref.JCS(m2), attacker)))
+			// the attacker re-signs with its own key and mirrors request-level fields INSIDE the signed payload (members
+			// the signed-data models also declare or might prefer): the request keeps the victim's reveal value
+			for _, extra := range []struct {
+				label string
+				mod   func(m map[string]any)
+			}{
+				{"signed-reveal-of-attacker", func(m map[string]any) { m["revealValue"] = ref.Reveal(alg, attacker.RefJWK("")) }},
+				{"signed-reveal-of-victim", func(m map[string]any) { m["revealValue"] = req["revealValue"] }},
+				{"signed-did-suffix", func(m map[string]any) { m["didSuffix"] = req["didSuffix"] }},
+				{"signed-type", func(m map[string]any) { m["type"] = string(kind) }},
+				{"signed-delta", func(m map[string]any) { m["delta"] = req["delta"] }},
+			} {
+				m3 := ref.Clone(m2).(map[string]any)
+				extra.mod(m3)
+				add("key-substituted+resigned+"+extra.label, withJWS(rawJWS(hdr, ref.JCS(m3), attacker)))
+			}
 			// re-signed by the attacker but the embedded key left in place
 			add("resigned-by-other-key", withJWS(rawJWS(map[string]any{"alg": w.Pool.Get(signIdx).Type.Alg()}, p, otherKeySameType(w, signIdx, 1))))
 		}
